@@ -9,20 +9,26 @@ Section Sim.
   Variable linit : op -> local.
   Variable mstep : op -> local -> state -> local * state.
   Variable fin : op -> local -> option ret.
+  Variable waits : op -> local -> bool.
+  Variable wstep : op -> local -> local.
   Variable kind : op -> lkind.
   Variable s0 : state.
 
   Hypothesis Hshared : shared_readonly state op local mstep kind.
   Hypothesis Hnone : none_stateless state op local mstep kind.
+  Hypothesis Hwexcl : wait_excl op local waits kind.
+  Variable resumable : op -> local -> Prop.
+  Hypothesis Hres : resumable_inv state op ret local linit mstep fin waits wstep resumable.
 
-  Notation body_run := (body_run state op ret local mstep fin).
-  Notation seq_exec := (seq_exec state op ret local linit mstep fin).
+  Notation body_run := (body_run state op ret local mstep fin waits wstep).
+  Notation sect_run := (sect_run state op ret local mstep fin waits).
+  Notation seq_exec := (seq_exec state op ret local linit mstep fin waits wstep).
   Notation config := (config state op ret local).
   Notation aconfig := (aconfig state op ret).
-  Notation step := (step state op ret local linit mstep fin kind).
-  Notation exec := (exec state op ret local linit mstep fin kind s0).
-  Notation astep := (astep state op ret local linit mstep fin).
-  Notation aexec := (aexec state op ret local linit mstep fin s0).
+  Notation step := (step state op ret local linit mstep fin waits wstep kind).
+  Notation exec := (exec state op ret local linit mstep fin waits wstep kind s0).
+  Notation astep := (astep state op ret local linit mstep fin waits wstep).
+  Notation aexec := (aexec state op ret local linit mstep fin waits wstep s0).
   Notation holds := (holds state op ret local).
   Notation holds_excl := (holds_excl state op ret local kind).
   Notation abs := (abs op ret).
@@ -30,11 +36,18 @@ Section Sim.
   Notation aupd := (aupd op ret).
 
   Lemma body_run_snoc : forall o l0 s l1 s1 l2 s2,
-    body_run o l0 s l1 s1 -> fin o l1 = None -> mstep o l1 s1 = (l2, s2) -> body_run o l0 s l2 s2.
+    sect_run o l0 s l1 s1 -> fin o l1 = None -> waits o l1 = false -> mstep o l1 s1 = (l2, s2) ->
+    sect_run o l0 s l2 s2.
   Proof.
-    intros o l0 s l1 s1 l2 s2 Hrun; induction Hrun as [l s|l s la sa lb sb Hf Hm Hr IH]; intros Hfin Hstep.
-    - eapply br_step; eauto. apply br_refl.
-    - eapply br_step; eauto.
+    intros o l0 s l1 s1 l2 s2 Hrun; induction Hrun as [l s|l s la sa lb sb Hf Hw Hm Hr IH]; intros Hfin Hwt Hstep.
+    - eapply sr_step; eauto. apply sr_refl.
+    - eapply sr_step; eauto.
+  Qed.
+
+  Lemma sect_body : forall o l s l' s', sect_run o l s l' s' -> body_run o l s l' s'.
+  Proof.
+    intros o l s l' s' H; induction H as [l s|l s la sa lb sb Hf Hw Hm Hr IH]; [apply br_refl|].
+    eapply br_step; eauto.
   Qed.
 
   Lemma upd_same : forall f t v, upd f t v t = v.
@@ -52,13 +65,13 @@ Section Sim.
     | Idle _ _ _ => ath _ _ _ a t = AIdle _ _
     | Invoked _ _ _ o l =>
         ath _ _ _ a t = APending _ _ o /\
-        (kind o <> KNone -> l = linit o) /\
-        (kind o = KNone -> forall s, body_run o (linit o) s l s)
+        (kind o <> KNone -> resumable o l) /\
+        (kind o = KNone -> forall s, sect_run o (linit o) s l s)
     | InCS _ _ _ o l =>
         ath _ _ _ a t = APending _ _ o /\ kind o <> KNone /\
-        (kind o = KExcl -> body_run o (linit o) (ash _ _ _ a) l (sh _ _ _ _ c) /\
+        (kind o = KExcl -> (exists l0, resumable o l0 /\ sect_run o l0 (ash _ _ _ a) l (sh _ _ _ _ c)) /\
                            forall t', t' <> t -> ~ holds c t') /\
-        (kind o = KShared -> body_run o (linit o) (ash _ _ _ a) l (ash _ _ _ a))
+        (kind o = KShared -> exists l0, resumable o l0 /\ sect_run o l0 (ash _ _ _ a) l (ash _ _ _ a))
     | Released _ _ _ o r => ath _ _ _ a t = ADone _ _ o r
     end.
 
@@ -110,6 +123,10 @@ Section Sim.
     - rewrite upd_other in Hh by assumption. split; auto. now exists o, l.
   Qed.
 
+  Ltac other_thread c a Hne :=
+    apply thread_inv_frame with (c := c) (a := a); simpl; auto;
+    try (now rewrite upd_other by exact Hne); try (now rewrite aupd_other by exact Hne).
+
   Theorem simulation : forall tr c, exec tr c -> exists a, aexec (abs tr) a /\ sim_inv c a.
   Proof.
     intros tr c Hex; induction Hex as [|tr c act c' Hex IH Hstep].
@@ -117,7 +134,8 @@ Section Sim.
       split; [intro t; unfold thread_inv; simpl; reflexivity | intros _; reflexivity].
     - destruct IH as [a [Hae [Hth Hst]]]. rewrite abs_snoc.
       destruct Hstep as [c t o Hidle | c t o l Hinv Hk Hfree | c t o l Hinv Hk Hfree
-                        | c t o l l' s' Hcs Hfin Hms | c t o l l' s' Hinv Hk Hfin Hms
+                        | c t o l l' s' Hcs Hfin Hnw Hms | c t o l Hcs Hfin Hw
+                        | c t o l l' s' Hinv Hk Hfin Hnw Hms
                         | c t o l r Hcs Hfin | c t o l r Hinv Hk Hfin | c t o r Hrel]; simpl.
       + (* Inv *)
         pose proof (Hth t) as Ht; unfold thread_inv in Ht; rewrite Hidle in Ht.
@@ -126,12 +144,11 @@ Section Sim.
         split.
         * intro t'. destruct (Nat.eq_dec t' t) as [->|Hne].
           -- unfold thread_inv; simpl. rewrite upd_same, aupd_same.
-             split; [reflexivity|]. split; [auto|]. intros _ s; apply br_refl.
-          -- apply thread_inv_frame with (c := c) (a := a); simpl; auto.
-             ++ now rewrite upd_other.
-             ++ now rewrite aupd_other.
-             ++ intros ox lx _ _. repeat split; auto. intros t'' _ Hh.
-                eapply holds_upd_other; [|exact Hh]. intros; discriminate.
+             split; [reflexivity|]. split; [intros _; apply (res_init _ _ _ _ _ _ _ _ _ _ Hres)|].
+             intros _ s; apply sr_refl.
+          -- other_thread c a Hne.
+             intros ox lx _ _. repeat split; auto. intros t'' _ Hh.
+             eapply holds_upd_other; [|exact Hh]. intros; discriminate.
         * simpl; intro Hno; apply Hst. intros t' [o2 [l2 [Hh Hk2]]].
           apply (Hno t'); exists o2, l2; simpl. split; auto.
           destruct (Nat.eq_dec t' t) as [->|Hne]; [congruence|now rewrite upd_other].
@@ -145,12 +162,11 @@ Section Sim.
           -- unfold thread_inv; simpl. rewrite upd_same.
              split; auto. split; [congruence|]. split; [|congruence].
              intros _; split.
-             ++ rewrite Hl by congruence. rewrite <- Hsa. apply br_refl.
+             ++ exists l. split; [apply Hl; congruence|]. rewrite <- Hsa. apply sr_refl.
              ++ intros t'' Hne [o2 [l2 Hh]]; simpl in Hh. rewrite upd_other in Hh by assumption.
                 apply (Hfree t''); now exists o2, l2.
-          -- apply thread_inv_frame with (c := c) (a := a); simpl; auto.
-             ++ now rewrite upd_other.
-             ++ intros ox lx E _. exfalso; apply (Hfree t'); now exists ox, lx.
+          -- other_thread c a Hne.
+             intros ox lx E _. exfalso; apply (Hfree t'); now exists ox, lx.
         * simpl; intro Hno; exfalso; apply (Hno t); exists o, l; simpl; rewrite upd_same; auto.
       + (* Acq shared *)
         rewrite app_nil_r. exists a; split; auto.
@@ -160,10 +176,9 @@ Section Sim.
         * intro t'. destruct (Nat.eq_dec t' t) as [->|Hne].
           -- unfold thread_inv; simpl. rewrite upd_same.
              split; auto. split; [congruence|]. split; [congruence|].
-             intros _. rewrite Hl by congruence. apply br_refl.
-          -- apply thread_inv_frame with (c := c) (a := a); simpl; auto.
-             ++ now rewrite upd_other.
-             ++ intros ox lx E Hk'. exfalso; apply (Hfree t'); exists ox, lx; auto.
+             intros _. exists l. split; [apply Hl; congruence|apply sr_refl].
+          -- other_thread c a Hne.
+             intros ox lx E Hk'. exfalso; apply (Hfree t'); exists ox, lx; auto.
         * simpl; intros _; exact Hsa.
       + (* Body inside the critical section *)
         rewrite app_nil_r. exists a; split; auto.
@@ -174,17 +189,16 @@ Section Sim.
           destruct Ht' as (_ & _ & Hx & _). destruct (Hx Hk') as [_ Hal]. apply (Hal t); auto. now exists o, l. }
         destruct (kind_cases o) as [Hk|[Hk|Hk]]; [| |congruence].
         * (* exclusive writer *)
-          destruct (Hex1 Hk) as [Hrun Halone].
+          destruct (Hex1 Hk) as [[l0 [Hr0 Hrun]] Halone].
           split.
           -- intro t'. destruct (Nat.eq_dec t' t) as [->|Hne].
              ++ unfold thread_inv; simpl. rewrite upd_same.
                 split; auto. split; auto. split; [|congruence].
-                intros _; split; [eapply body_run_snoc; eauto|].
+                intros _; split; [exists l0; split; auto; eapply body_run_snoc; eauto|].
                 intros t'' Hne [o2 [l2 Hh]]; simpl in Hh. rewrite upd_other in Hh by assumption.
                 apply (Halone t'' Hne); now exists o2, l2.
-             ++ apply thread_inv_frame with (c := c) (a := a); simpl; auto.
-                ** now rewrite upd_other.
-                ** intros ox lx E _. exfalso; apply (Halone t'); auto. now exists ox, lx.
+             ++ other_thread c a Hne.
+                intros ox lx E _. exfalso; apply (Halone t'); auto. now exists ox, lx.
           -- simpl; intro Hno; exfalso; apply (Hno t); exists o, l'; simpl; rewrite upd_same; auto.
         * (* shared reader: the state does not change *)
           assert (Hs' : s' = sh _ _ _ _ c).
@@ -194,15 +208,30 @@ Section Sim.
           { intros t' [o2 [l2 [Hh Hk2]]]. destruct (Nat.eq_dec t' t) as [->|Hne]; [congruence|].
             eapply Hother; eauto. }
           assert (Hsa : sh _ _ _ _ c = ash _ _ _ a) by (apply Hst; exact Hnoex).
+          destruct (Hsh1 Hk) as [l0 [Hr0 Hrun]].
           split.
           -- intro t'. destruct (Nat.eq_dec t' t) as [->|Hne].
              ++ unfold thread_inv; simpl. rewrite upd_same.
                 split; auto. split; auto. split; [congruence|].
-                intros _. eapply body_run_snoc; [apply (Hsh1 Hk) | exact Hfin | rewrite <- Hsa; exact Hms].
-             ++ apply thread_inv_frame with (c := c) (a := a); simpl; auto.
-                ** now rewrite upd_other.
-                ** intros ox lx E Hk'. exfalso; eapply Hother; eauto.
+                intros _. exists l0; split; auto.
+                eapply body_run_snoc; [exact Hrun | exact Hfin | exact Hnw | rewrite <- Hsa; exact Hms].
+             ++ other_thread c a Hne.
+                intros ox lx E Hk'. exfalso; eapply Hother; eauto.
           -- simpl; intros _; exact Hsa.
+      + (* Wait: the condition variable releases the mutex; the section was a failed attempt *)
+        rewrite app_nil_r. exists a; split; auto.
+        pose proof (Hth t) as Ht; unfold thread_inv in Ht; rewrite Hcs in Ht.
+        destruct Ht as (Ha & Hnn & Hex1 & Hsh1).
+        pose proof (Hwexcl o l Hw) as Hk.
+        destruct (Hex1 Hk) as [[l0 [Hr0 Hrun]] Halone].
+        destruct (res_wait _ _ _ _ _ _ _ _ _ _ Hres o l0 _ l _ Hr0 Hrun Hfin Hw) as [Hsame Hr1].
+        split.
+        * intro t'. destruct (Nat.eq_dec t' t) as [->|Hne].
+          -- unfold thread_inv; simpl. rewrite upd_same.
+             split; auto. split; [intros _; exact Hr1|congruence].
+          -- other_thread c a Hne.
+             intros ox lx E _. exfalso; apply (Halone t'); auto. now exists ox, lx.
+        * simpl; intros _; exact Hsame.
       + (* Body of an operation that takes no lock: it does not touch the state *)
         rewrite app_nil_r. exists a; split; auto.
         pose proof (Hnone o Hk l (sh _ _ _ _ c) (sh _ _ _ _ c)) as Hself. rewrite Hms in Hself; simpl in Hself.
@@ -212,12 +241,11 @@ Section Sim.
         * intro t'. destruct (Nat.eq_dec t' t) as [->|Hne].
           -- unfold thread_inv; simpl. rewrite upd_same.
              split; auto. split; [congruence|]. intros _ s.
-             eapply body_run_snoc; [apply (Hrun Hk s) | exact Hfin |].
+             eapply body_run_snoc; [apply (Hrun Hk s) | exact Hfin | exact Hnw |].
              rewrite (Hnone o Hk l s (sh _ _ _ _ c)), Hms; reflexivity.
-          -- apply thread_inv_frame with (c := c) (a := a); simpl; auto.
-             ++ now rewrite upd_other.
-             ++ intros ox lx _ _. repeat split; auto. intros t'' _ Hh.
-                eapply holds_upd_other; [|exact Hh]. intros; discriminate.
+          -- other_thread c a Hne.
+             intros ox lx _ _. repeat split; auto. intros t'' _ Hh.
+             eapply holds_upd_other; [|exact Hh]. intros; discriminate.
         * simpl; intro Hno; apply Hst. intros t' [o2 [l2 [Hh Hk2]]].
           apply (Hno t'); exists o2, l2; simpl; split; auto.
           destruct (Nat.eq_dec t' t) as [->|Hne]; [congruence|now rewrite upd_other].
@@ -228,15 +256,14 @@ Section Sim.
         { intros t' o' lx Hne E Hk'. pose proof (Hth t') as Ht'; unfold thread_inv in Ht'; rewrite E in Ht'.
           destruct Ht' as (_ & _ & Hx & _). destruct (Hx Hk') as [_ Hal]. apply (Hal t); auto. now exists o, l. }
         destruct (kind_cases o) as [Hk|[Hk|Hk]]; [| |congruence].
-        * destruct (Hex1 Hk) as [Hrun Halone].
+        * destruct (Hex1 Hk) as [[l0 [Hr0 Hrun]] Halone].
           exists (mka _ _ _ (sh _ _ _ _ c) (aupd (ath _ _ _ a) t (ADone _ _ o r))); split.
-          { eapply ae_snoc; eauto. eapply a_lin; eauto. exists l; auto. }
+          { eapply ae_snoc; eauto. eapply a_lin; eauto.
+            exact (res_fin _ _ _ _ _ _ _ _ _ _ Hres o l0 _ l _ r Hr0 Hrun Hfin). }
           split.
           -- intro t'. destruct (Nat.eq_dec t' t) as [->|Hne].
              ++ unfold thread_inv; simpl. rewrite upd_same, aupd_same. reflexivity.
-             ++ apply thread_inv_frame with (c := c) (a := a); simpl; auto.
-                ** now rewrite upd_other.
-                ** now rewrite aupd_other.
+             ++ other_thread c a Hne.
                 ** intros ox lx E _. exfalso; apply (Halone t'); auto. now exists ox, lx.
                 ** intros ox lx E _. exfalso; apply (Halone t'); auto. now exists ox, lx.
           -- simpl; intros _; reflexivity.
@@ -244,28 +271,26 @@ Section Sim.
           { intros t' [o2 [l2 [Hh Hk2]]]. destruct (Nat.eq_dec t' t) as [->|Hne]; [congruence|].
             eapply Hother; eauto. }
           assert (Hsa : sh _ _ _ _ c = ash _ _ _ a) by (apply Hst; exact Hnoex).
+          destruct (Hsh1 Hk) as [l0 [Hr0 Hrun]].
           exists (mka _ _ _ (ash _ _ _ a) (aupd (ath _ _ _ a) t (ADone _ _ o r))); split.
-          { eapply ae_snoc; eauto. eapply a_lin; eauto. exists l; split; auto. }
+          { eapply ae_snoc; eauto. eapply a_lin; eauto.
+            exact (res_fin _ _ _ _ _ _ _ _ _ _ Hres o l0 _ l _ r Hr0 Hrun Hfin). }
           split.
           -- intro t'. destruct (Nat.eq_dec t' t) as [->|Hne].
              ++ unfold thread_inv; simpl. rewrite upd_same, aupd_same. reflexivity.
-             ++ apply thread_inv_frame with (c := c) (a := a); simpl; auto.
-                ** now rewrite upd_other.
-                ** now rewrite aupd_other.
-                ** intros ox lx E Hk'. exfalso; eapply Hother; eauto.
+             ++ other_thread c a Hne.
+                intros ox lx E Hk'. exfalso; eapply Hother; eauto.
           -- simpl; intros _; exact Hsa.
       + (* end of a lock-free body *)
         pose proof (Hth t) as Ht; unfold thread_inv in Ht; rewrite Hinv in Ht; destruct Ht as (Ha & Hl & Hrun).
         exists (mka _ _ _ (ash _ _ _ a) (aupd (ath _ _ _ a) t (ADone _ _ o r))); split.
-        { eapply ae_snoc; eauto. eapply a_lin; eauto. exists l; split; auto. }
+        { eapply ae_snoc; eauto. eapply a_lin; eauto. exists l; split; auto. apply sect_body. apply (Hrun Hk). }
         split.
         * intro t'. destruct (Nat.eq_dec t' t) as [->|Hne].
           -- unfold thread_inv; simpl. rewrite upd_same, aupd_same. reflexivity.
-          -- apply thread_inv_frame with (c := c) (a := a); simpl; auto.
-             ++ now rewrite upd_other.
-             ++ now rewrite aupd_other.
-             ++ intros ox lx _ _. repeat split; auto. intros t'' _ Hh.
-                eapply holds_upd_other; [|exact Hh]. intros; discriminate.
+          -- other_thread c a Hne.
+             intros ox lx _ _. repeat split; auto. intros t'' _ Hh.
+             eapply holds_upd_other; [|exact Hh]. intros; discriminate.
         * simpl; intro Hno; apply Hst. intros t' [o2 [l2 [Hh Hk2]]].
           apply (Hno t'); exists o2, l2; simpl; split; auto.
           destruct (Nat.eq_dec t' t) as [->|Hne]; [congruence|now rewrite upd_other].
@@ -276,11 +301,9 @@ Section Sim.
         split.
         * intro t'. destruct (Nat.eq_dec t' t) as [->|Hne].
           -- unfold thread_inv; simpl. rewrite upd_same, aupd_same. reflexivity.
-          -- apply thread_inv_frame with (c := c) (a := a); simpl; auto.
-             ++ now rewrite upd_other.
-             ++ now rewrite aupd_other.
-             ++ intros ox lx _ _. repeat split; auto. intros t'' _ Hh.
-                eapply holds_upd_other; [|exact Hh]. intros; discriminate.
+          -- other_thread c a Hne.
+             intros ox lx _ _. repeat split; auto. intros t'' _ Hh.
+             eapply holds_upd_other; [|exact Hh]. intros; discriminate.
         * simpl; intro Hno; apply Hst. intros t' [o2 [l2 [Hh Hk2]]].
           apply (Hno t'); exists o2, l2; simpl; split; auto.
           destruct (Nat.eq_dec t' t) as [->|Hne]; [congruence|now rewrite upd_other].
@@ -302,9 +325,9 @@ Section Sim.
     destruct Hth as (_ & _ & Hx & _). exact (proj2 (Hx Hk)).
   Qed.
 
-  Theorem race_free : forall tr c, exec tr c -> ~ race state op ret local fin kind c.
+  Theorem race_free : forall tr c, exec tr c -> ~ race state op ret local fin waits kind c.
   Proof.
-    intros tr c Hex [t [t' [w [w' [Hne [[o [l [Hcs [_ Hw]]]] [[o' [l' [Hcs' [_ Hw']]]] Hor]]]]]]].
+    intros tr c Hex [t [t' [w [w' [Hne [[o [l [Hcs [_ [_ Hw]]]]] [[o' [l' [Hcs' [_ [_ Hw']]]]] Hor]]]]]]].
     destruct Hor as [-> | ->].
     - destruct (kind o) eqn:Hk; try discriminate.
       apply (mutual_exclusion tr c t o l Hex Hcs Hk t'); auto. now exists o', l'.
@@ -312,3 +335,29 @@ Section Sim.
       apply (mutual_exclusion tr c t' o' l' Hex Hcs' Hk t); auto. now exists o, l.
   Qed.
 End Sim.
+
+(* bodies that never wait: "enters every section with the initial locals" is a resumable invariant *)
+Section NoWait.
+  Variables state op ret local : Type.
+  Variable linit : op -> local.
+  Variable mstep : op -> local -> state -> local * state.
+  Variable fin : op -> local -> option ret.
+  Variable waits : op -> local -> bool.
+  Variable wstep : op -> local -> local.
+  Hypothesis Hnowait : forall o l, waits o l = false.
+
+  Lemma nowait_resumable :
+    resumable_inv state op ret local linit mstep fin waits wstep (fun o l => l = linit o).
+  Proof.
+    constructor.
+    - reflexivity.
+    - intros o l0 s l s' _ _ _ Hw. rewrite Hnowait in Hw. discriminate.
+    - intros o l0 s l s' r -> Hrun Hfin. exists l. split; auto.
+      clear Hfin. induction Hrun as [l s|l s la sa lb sb Hf Hw Hm Hr IH]; [apply br_refl|].
+      eapply br_step; eauto.
+  Qed.
+
+  Lemma nowait_wait_excl : forall kind, wait_excl op local waits kind.
+  Proof. intros kind o l Hw. rewrite Hnowait in Hw. discriminate. Qed.
+End NoWait.
+
